@@ -1826,7 +1826,9 @@ def evaluate(ck, c, r, m):
     v = verdict(r)
     # a stalled machine makes a run late, and can turn "finishes 100 ms inside the limit" into a timeout: re-measure
     # (serially) before believing either; a real difference shows in every attempt
-    while (v == "late" or (v in ("ok", "early") and not agrees(r) and len(attempts) < 3)) and len(attempts) < 3:
+    # (a stall can also make a run end EARLIER than predicted: a read that overruns past an outer close() finds the next
+    # read refused at once) — so every verdict other than ok is re-measured, not only "late"
+    while (v in ("late", "early") or not agrees(r)) and len(attempts) < 3:
         rr = remeasure(ck, c)
         if rr is None or rr.get("harness_error") or rr.get("hung"):
             break
@@ -1834,12 +1836,11 @@ def evaluate(ck, c, r, m):
             break
         attempts.append(rr)
         v2 = verdict(rr)
-        if v2 != "late" and (agrees(rr) or not agrees(r)):
+        if v2 == "ok" and agrees(rr):
             r, v = rr, v2
-            if agrees(rr) and v2 == "ok":
-                break
-        elif v == "late":
-            v = v2 if v2 != "late" else v
+            break
+        if v2 == "ok" and v != "ok" and not agrees(r):
+            r, v = rr, v2
     noisy = all(a.get("hb_gap", 0) > NOISY for a in attempts)
     tie = kind == "stack" and c["t_ops"] == c["t_tr"] and c["t_ops"] > 0
     mism = []
@@ -1849,7 +1850,7 @@ def evaluate(ck, c, r, m):
     rig_exc = r.get("exc") == "RigError" and m["out"] != "error"
     swallowed = matcher({**case, "mech": c["mech"], "viol": "no_timeout", "exc": r.get("exc")})
     swallowed = swallowed is not None and is_open(ck, swallowed)    # known defect outside the decorator: outcome judged by the oracle only
-    if v == "late" and noisy:
+    if v in ("late", "early") and noisy:
         raise_harness(ck, f"machine too loaded to time {case}: elapsed {[round(a['elapsed'], 2) for a in attempts]} vs predicted {pred_s}, heartbeat gaps {[round(a.get('hb_gap', 0), 3) for a in attempts]}")
     elif v != "ok":
         mism.append(f"time impl={[round(a['elapsed'], 3) for a in attempts]} model={pred_s} ({v})")
